@@ -237,11 +237,19 @@ func (f *faultStore) Iterate(prefix kvstore.KeyPrefix, consumer kvstore.Iterator
 type codecBufs struct {
 	scratch bool
 	varKeys bool // TypedStore keys encode with variable length (see encKeyVar): one key's encoding can be a prefix of another's
+	zeroEmpty bool // the value 0 encodes as the empty byte string (and the empty byte string decodes to 0): "present with a zero-length value" is not "absent"
 	val     [8]byte
 	key     [2]byte
 }
 
 func (c *codecBufs) encVal(v uint64) []byte {
+	if c.zeroEmpty && v == 0 {
+		if c.scratch {
+			return c.val[:0]
+		}
+
+		return []byte{}
+	}
 	if !c.scratch {
 		return encU64(v)
 	}
@@ -258,6 +266,36 @@ func (c *codecBufs) encKey(k uint16) ([]byte, bool) {
 	copy(c.key[:], b)
 
 	return c.key[:len(b)], true
+}
+
+// encValRaw / decValRaw: the value codec without injection and without buffer games, in the flavour of this world.
+func (c *codecBufs) encValRaw(v uint64) []byte {
+	if c.zeroEmpty && v == 0 {
+		return []byte{}
+	}
+
+	return encU64(v)
+}
+
+func (c *codecBufs) decValRaw(b []byte) (uint64, bool) {
+	if c.zeroEmpty && len(b) == 0 {
+		return 0, true
+	}
+
+	return decU64(b)
+}
+
+func (c *codecBufs) setValues(name string) string {
+	switch name {
+	case "zempty":
+		c.zeroEmpty = true
+	case "plain":
+		c.zeroEmpty = false
+	default:
+		return "bad-op"
+	}
+
+	return "ok"
 }
 
 // encKeyRaw / decKeyRaw: the key codec without injection and without buffer games, in the flavour of this world.
@@ -436,7 +474,7 @@ func (w *tvWorld) open() {
 			return w.bufs.encVal(v), nil
 		},
 		func(b []byte) (uint64, int, error) {
-			v, ok := decU64(b)
+			v, ok := w.bufs.decValRaw(b)
 			w.bufs.consumed(b)
 			if w.flt.dec || !ok {
 				w.trace = append(w.trace, "D!")
@@ -666,6 +704,8 @@ func (w *tvWorld) exec(r *hx.Run, f []string) string {
 		return w.bufs.setFlavour(f[1])
 	case "store":
 		return w.fs.setFlavour(f[1])
+	case "values":
+		return w.bufs.setValues(f[1])
 	case "init":
 		w.base.Delete(tvKey)
 		w.initHas, w.initRaw = false, nil
@@ -704,7 +744,7 @@ func (w *tvWorld) exec(r *hx.Run, f []string) string {
 	cvBefore, chBefore := w.cache()
 	curBefore, decodableBefore := uint64(0), false
 	if hasBefore {
-		curBefore, decodableBefore = decU64(rawBefore)
+		curBefore, decodableBefore = w.bufs.decValRaw(rawBefore)
 	}
 
 	var out string        // canonical result
@@ -848,7 +888,7 @@ func (w *tvWorld) exec(r *hx.Run, f []string) string {
 	case 0:
 		wantRaw, wantHas = w.initRaw, w.initHas
 	case 2:
-		wantRaw, wantHas = encU64(w.lwVal), true
+		wantRaw, wantHas = w.bufs.encValRaw(w.lwVal), true
 	}
 	if hasAfter != wantHas || string(rawAfter) != string(wantRaw) {
 		r.Fail("stored-is-last-written", fmt.Sprintf("after %s (%s): raw=%s but the last successful write makes it %s", op, out, showRaw(rawAfter, hasAfter), showRaw(wantRaw, wantHas)),
@@ -856,7 +896,7 @@ func (w *tvWorld) exec(r *hx.Run, f []string) string {
 	}
 	// (4) cache = store
 	if cvAfter != nil {
-		v, okd := decU64(rawAfter)
+		v, okd := w.bufs.decValRaw(rawAfter)
 		if !hasAfter || !okd || v != *cvAfter {
 			r.Fail("cache-coherent", fmt.Sprintf("after %s (%s): valueCached=%d but raw=%s", op, out, *cvAfter, showRaw(rawAfter, hasAfter)),
 				map[string]string{"oracle": "cache-value", "api": api, "calls": traceStr(w.trace)})
@@ -983,7 +1023,7 @@ func newTSWorld() *tsWorld {
 		func(b []byte) (uint64, int, error) {
 			pos := w.decCalls
 			w.decCalls++
-			v, ok := decU64(b)
+			v, ok := w.bufs.decValRaw(b)
 			w.bufs.consumed(b)
 			if w.flt.dec[pos] || !ok {
 				w.failed("V", "err:decv")
@@ -1064,7 +1104,7 @@ func (w *tsWorld) expectIterate(prefix []byte, bwd bool, stop int, flt tsFaults)
 		if !ok || flt.dec[2*i] {
 			return "iter err:deck " + showPairs(got)
 		}
-		vd, ok := decU64(w.mirror[k])
+		vd, ok := w.bufs.decValRaw(w.mirror[k])
 		if !ok || flt.dec[2*i+1] {
 			return "iter err:decv " + showPairs(got)
 		}
@@ -1119,6 +1159,8 @@ func (w *tsWorld) exec(r *hx.Run, f []string) string {
 		return w.bufs.setFlavour(f[1])
 	case "store":
 		return w.fs.setFlavour(f[1])
+	case "values":
+		return w.bufs.setValues(f[1])
 	case "keys":
 		switch f[1] {
 		case "var":
@@ -1175,7 +1217,7 @@ func (w *tsWorld) exec(r *hx.Run, f []string) string {
 				if kok {
 					if raw, has := w.mirror[string(kb)]; !has {
 						expect = "notfound"
-					} else if d, okd := decU64(raw); okd {
+					} else if d, okd := w.bufs.decValRaw(raw); okd {
 						expect = fmt.Sprintf("val %d", d)
 					}
 				}
@@ -1201,7 +1243,7 @@ func (w *tsWorld) exec(r *hx.Run, f []string) string {
 				err = w.ts.Set(k, v)
 				if err == nil {
 					out = "ok"
-					w.mirror[string(kb)] = encU64(v)
+					w.mirror[string(kb)] = w.bufs.encValRaw(v)
 				}
 				expect = "ok"
 			}
